@@ -1386,6 +1386,13 @@ async fn create_task(
     if payload.tool != "bash" && payload.tool != "shell" {
         return StatusCode::BAD_REQUEST.into_response();
     }
+    // Arguments nested too deeply to be stored in a frame (see MAX_FRAME_PAYLOAD_NESTING).
+    if rip_provider_openresponses::json_nesting_exceeds(
+        &payload.args,
+        rip_provider_openresponses::MAX_FRAME_PAYLOAD_NESTING,
+    ) {
+        return StatusCode::BAD_REQUEST.into_response();
+    }
 
     let engine: Arc<TaskEngine> = state.engine.tasks();
     let handle = engine.create_task(&payload);
